@@ -4,6 +4,7 @@ Theorems about `Just.Run` (model of src/recipe.rs run_linewise / run_script).
 -/
 import Just.Model.Run
 import Just.Lemmas.RunSpec
+import Just.Lemmas.RunQuiet
 namespace Just.Props.C14
 open Just.Run
 
@@ -277,5 +278,30 @@ example :
         [⟨true, false, [.lit "a"]⟩, ⟨false, true, [.lit "b", .bt "c"]⟩]
       = ([.echo "a", .echo "b`c`"], .ok ()) := by
   simp [runLines, evalList, evalA, runCmd, echoes, concat, Cfg.loquacious]
+
+/-- **The echo switches change nothing but the echo.**  Two configurations that agree on `--dry-run`, `--yes`
+and `--no-deps` and differ arbitrarily in `--quiet`, `--verbose` and `set quiet`: for every program, every
+environment (command statuses, backtick outputs, confirmation answers) and every invocation list the whole run
+has the same exit status and exactly the same sequence of events other than echoed lines - the same processes
+with the same command text, the same backticks, the same confirmation prompts, the same recipe bodies in the
+same order.  (Proof: Lemmas/RunQuiet.lean, induction on the fuel of `runRecipe` / `runDeps`.) -/
+theorem echo_switches_change_only_echo (P : Prog) (cfg cfg2 : Cfg) (env : Env) (invs : List Key)
+    (hd : cfg2.dryRun = cfg.dryRun) (hy : cfg2.yes = cfg.yes) (hn : cfg2.noDeps = cfg.noDeps) :
+    (runMain P cfg2 env invs).2 = (runMain P cfg env invs).2
+    ∧ noEcho (runMain P cfg2 env invs).1 = noEcho (runMain P cfg env invs).1 :=
+  runMain_rel ⟨hd, hy, hn⟩ P env invs
+
+/-- in particular `--quiet` -/
+theorem quiet_changes_no_execution (P : Prog) (cfg : Cfg) (env : Env) (invs : List Key) :
+    (runMain P { cfg with quiet := true } env invs).2 = (runMain P cfg env invs).2
+    ∧ noEcho (runMain P { cfg with quiet := true } env invs).1 = noEcho (runMain P cfg env invs).1 :=
+  echo_switches_change_only_echo P cfg { cfg with quiet := true } env invs rfl rfl rfl
+
+/-- and what is removed by `noEcho` is only echo: every other event survives, in order -/
+theorem noEcho_keeps_everything_else (es : List Ev) :
+    noEcho es = es.filter (fun e => match e with | .echo _ => false | _ => true) := by
+  induction es with
+  | nil => rfl
+  | cons e es ih => cases e <;> simp [noEcho, ih]
 
 end Just.Props.C14
